@@ -3,8 +3,9 @@ package main
 import "strings"
 
 // Goal splitting: when the solvers cannot decide "hyp => (A and B)" within the timeout, the conjuncts
-// are tried one at a time. The split distributes over =>, forall, let and pattern annotations only, so
-// the conjunction of the parts is equivalent to the goal; nothing is weakened.
+// are tried one at a time. The split distributes over =>, forall, let and pattern annotations, and over a
+// disjunction in the antecedent of an implication (one part per disjunct), so the conjunction of the parts is
+// equivalent to the goal; nothing is weakened.
 
 type sx struct {
 	atom string
@@ -124,9 +125,17 @@ func splitSx(n *sx) []*sx {
 		return out
 	case "=>":
 		if len(n.kids) == 3 {
+			// (a or b) => G  is  (a => G) and (b => G): a return point reached over several paths is proved path
+			// by path (the merged heap of the join collapses once the path is fixed)
+			ants := []*sx{n.kids[1]}
+			if n.kids[1].head() == "or" && len(n.kids[1].kids) >= 3 && len(n.kids[1].kids) <= 9 {
+				ants = n.kids[1].kids[1:]
+			}
 			var out []*sx
-			for _, p := range splitSx(n.kids[2]) {
-				out = append(out, &sx{kids: []*sx{n.kids[0], n.kids[1], p}})
+			for _, a := range ants {
+				for _, p := range splitSx(n.kids[2]) {
+					out = append(out, &sx{kids: []*sx{n.kids[0], a, p}})
+				}
 			}
 			return out
 		}
@@ -157,7 +166,7 @@ func splitGoal(goal string) []string {
 		return nil
 	}
 	ps := splitSx(n)
-	if len(ps) < 2 || len(ps) > 16 {
+	if len(ps) < 2 || len(ps) > 24 {
 		return nil
 	}
 	out := make([]string, len(ps))
